@@ -6,7 +6,9 @@
      ecu/apid/ctid  4-tuples over 0..n (0 = NUL padding, 1.. = characters; concretisation 1->'A' 2->'B' 3->'a' 4->'1')
      ext            the message has an extended header (apid/ctid/vmm exist only then; kept at Zero4/0 otherwise)
      vmm            the verb_mstp_mtin byte 0..255 (bit0 verbose, bits 1..3 MSTP, bits 4..7 MTIN)
-     text           payload text, a sequence of character codes (0 = ' ', 1..26 = 'a'..'z', 101..126 = 'A'..'Z')
+     text           payload text, a sequence of character codes (0 = ' ', 1..26 = 'a'..'z', 101..126 = 'A'..'Z',
+                    200 + ASCII for every other character); for messages with a real payload it is the text the code
+                    base itself renders for the unfiltered message (payload_as_text)
      lc             lifecycle id (0 = none)
 
    ABSTRACT FILTER    [kind, enabled, not, ecu, apid, ctid, type, lmin, lmax, pay, lcs]
@@ -113,7 +115,8 @@ LMaxHolds(l, m) == l = -1 \/ (m.ext /\ Mstp(m.vmm) = 0 /\ Mtin(m.vmm) <= l)
 
 -----------------------------------------------------------------------------
 \* payload text
-Low(ch) == IF ch >= 100 THEN ch - 100 ELSE ch
+\* further characters of a text (digits, punctuation) have the code 200 + ASCII; they have no case
+Low(ch) == IF ch \in 101..126 THEN ch - 100 ELSE ch
 LowS(s) == [i \in 1..Len(s) |-> Low(s[i])]
 NoPay == [k |-> "none", cls |-> "", w |-> <<>>, w2 |-> <<>>, ic |-> FALSE]
 PSub(w, ic) == [k |-> "sub", cls |-> "", w |-> w, w2 |-> <<>>, ic |-> ic]
@@ -153,7 +156,10 @@ EmptyFilter(kind, en, nt) ==
 \* front-ends: the expressible subset (the denotation of an expressible filter is the filter itself)
 OnlyIds(f) == f.type.k = "none" /\ f.lmin = -1 /\ f.lmax = -1 /\ f.pay.k = "none" /\ f.lcs.k = "none"
 SomeId(f) == f.ecu.k # "none" \/ f.apid.k # "none" \/ f.ctid.k # "none"
-Expressible(fe, f) ==
+\* a payload regex criterion is written with letters, digits, blanks and Dot only (no character that needs escaping)
+ReTok(t) == t \in 0..26 \/ t \in 101..126 \/ t \in 248..257 \/ t = Dot
+ReSafe(c) == c.k # "re" \/ ((\A i \in 1..Len(c.w) : ReTok(c.w[i])) /\ (\A i \in 1..Len(c.w2) : ReTok(c.w2[i])))
+Expressible(fe, f) == ReSafe(f.pay) /\
     CASE fe = "json"  -> f.type.k # "raw"
       [] fe = "jsona" -> f.type.k # "raw" /\ SomeId(f) /\ AutoOk(f.ecu) /\ AutoOk(f.apid) /\ AutoOk(f.ctid)
       [] fe = "dlf"   -> /\ ~f.not /\ f.lcs.k = "none" /\ f.ecu.k \in {"none", "lit"}
